@@ -71,6 +71,10 @@ pub struct Scn<T: Payload> {
     pub lin_max_events: usize,
     t_start: Instant,
     pub hits0: [u64; kanal::verif::N_POINTS],
+    /// handles that main and one or more workers use through shared references (`spawn_shared`); boxed so that
+    /// they never move while a reference is out
+    shared_s: Vec<Box<SH<T>>>,
+    shared_r: Vec<Box<RH<T>>>,
 }
 
 #[derive(Clone, Copy, PartialEq, Debug)]
@@ -97,7 +101,7 @@ impl<T: Payload> Scn<T> {
         let slot = stuck::slot(MAIN_SLOT);
         slot.begin_thread();
         main.status = Some(slot);
-        Scn { cap, main, workers: vec![], viols: vec![], inconclusive: None, main_regs: vec![], s0: 1, r0: 1, grace: Duration::from_secs(if cfg!(miri) { 10_000_000 } else { 20 }), lin_max_events: 80, t_start: Instant::now(), hits0: fp::hits() }
+        Scn { cap, main, workers: vec![], viols: vec![], inconclusive: None, main_regs: vec![], s0: 1, r0: 1, grace: Duration::from_secs(if cfg!(miri) { 10_000_000 } else { 20 }), lin_max_events: 80, t_start: Instant::now(), hits0: fp::hits(), shared_s: vec![], shared_r: vec![] }
     }
     pub fn hits(&self) -> [u64; kanal::verif::N_POINTS] {
         fp::hits_delta(&self.hits0)
@@ -173,6 +177,82 @@ impl<T: Payload> Scn<T> {
             .unwrap();
         self.workers.push(Worker { jh: Some(jh), ctx: None, slot: w, regs: vec![] });
         w
+    }
+
+    /// Like `spawn`, but the worker does not get a clone: it uses main's most recent handle of the side through a
+    /// shared reference (`&Sender` is `Sync`; scoped threads sharing one un-cloned handle are common). The number
+    /// of handles does not change; main keeps using the same handle as well, but no longer drops or converts it
+    /// before the end of the scenario.
+    pub fn spawn_shared(&mut self, side: Side, ops: Vec<Op>) -> usize {
+        let w = self.workers.len();
+        let l = ledger();
+        let span = ((l.n as u64 - payload::FIRST_UNIQUE) / 16).min(4096);
+        let lo = payload::FIRST_UNIQUE + (w as u64 + 1) * span;
+        let mut ctx = ThreadCtx::<T>::new(w as u16 + 1, lo, lo + span);
+        ctx.set_pat(self.main.pat ^ (w as u64 + 1) << 12);
+        if side != Side::R {
+            let h = self.main.senders.pop().expect("main has a sender to share");
+            let p: *const SH<T> = match h {
+                SH::B(p) => p,
+                real => {
+                    let b = Box::new(real);
+                    let p: *const SH<T> = &*b;
+                    self.shared_s.push(b);
+                    p
+                }
+            };
+            self.main.senders.push(SH::B(p));
+            ctx.senders.push(SH::B(p));
+        }
+        if side != Side::S {
+            let h = self.main.receivers.pop().expect("main has a receiver to share");
+            let p: *const RH<T> = match h {
+                RH::B(p) => p,
+                real => {
+                    let b = Box::new(real);
+                    let p: *const RH<T> = &*b;
+                    self.shared_r.push(b);
+                    p
+                }
+            };
+            self.main.receivers.push(RH::B(p));
+            ctx.receivers.push(RH::B(p));
+        }
+        let role = self.role_of(w);
+        let jh = std::thread::Builder::new()
+            .stack_size(256 * 1024)
+            .spawn(move || {
+                let slot = stuck::slot(w);
+                slot.begin_thread();
+                ctx.status = Some(slot);
+                fp::set_role(role);
+                for op in ops {
+                    ctx.exec(op);
+                }
+                slot.finish();
+                ctx
+            })
+            .unwrap();
+        self.workers.push(Worker { jh: Some(jh), ctx: None, slot: w, regs: vec![] });
+        w
+    }
+    /// every worker has been joined: main gets its shared handles back as ordinary ones (and drops them, recorded,
+    /// in `ThreadCtx::finish`)
+    fn unshare(&mut self) {
+        for h in self.main.senders.iter_mut() {
+            if let SH::B(p) = h {
+                if let Some(i) = self.shared_s.iter().position(|b| std::ptr::eq(&**b, *p)) {
+                    *h = *self.shared_s.swap_remove(i);
+                }
+            }
+        }
+        for h in self.main.receivers.iter_mut() {
+            if let RH::B(p) = h {
+                if let Some(i) = self.shared_r.iter().position(|b| std::ptr::eq(&**b, *p)) {
+                    *h = *self.shared_r.swap_remove(i);
+                }
+            }
+        }
     }
 
     fn pause(n: &mut u32) {
@@ -347,6 +427,7 @@ impl<T: Payload> Scn<T> {
             std::mem::forget(self);
             return Outcome::Violated(v);
         }
+        self.unshare();
         let mut events: Vec<Event> = Vec::new();
         for w in 0..n {
             let mut ctx = self.workers[w].ctx.take().unwrap();
